@@ -639,7 +639,9 @@ pub fn frame_bytes(chunks: &[(u16, Vec<u8>)], duration: u16, o: &EncOpts) -> Vec
     let (old, new) = match o.count_field {
         CountField::New | CountField::Both => (if n >= 0xFFFF { 0xFFFF } else { n as u16 }, n),
         CountField::OldOnly => (n as u16, 0),
-        CountField::NewOnlyOldFFFF => (0xFFFF, n),
+        // old = 0xFFFF means "use the new field"; with no chunks at all the new field would be 0 = "use the
+        // old field", so an empty frame cannot be encoded this way
+        CountField::NewOnlyOldFFFF => (if n == 0 { 0 } else { 0xFFFF }, n),
         CountField::NewOnlyOldZero => (0, n),
     };
     let mut w = W::new();
